@@ -51,7 +51,7 @@ SAN_ENV = {
 XTP_SOURCES = ["davidsonsolver", "matrixfreeoperator", "job",
                "progressobserver", "gnode", "rate_engine", "qmpair", "segment",
                "atom", "eeinteractor", "staticsite", "polarsite", "checkpoint",
-               "IndexParser", "logger" ]
+               "IndexParser"]
 
 
 class HarnessFailure(Exception):
@@ -154,79 +154,99 @@ def _xtp_config_dir(hd):
     return os.path.join(hd, "xtpcfg")
 
 
-def build_harness(fl, name, sources=None, xtp=False, flags="", libs="",
-                  xtp_sources=None):
-    """compile /verif/harness/<name>.cc (plus optional extra sources) against
-    the freshly built libraries of flavour fl; returns the executable path."""
-    d = build_flavour(fl, ["votca_tools", "votca_csg"])
-    hd = os.path.join(d, "harness")
+def _includes(fl):
+    d = flavour_dir(fl)
+    return ["-I" + os.path.join(REPO, "tools/include"),
+            "-I" + os.path.join(REPO, "csg/include"),
+            "-I" + os.path.join(d, "tools/include"),
+            "-I" + os.path.join(d, "tools/include/votca/tools"),
+            "-I" + os.path.join(d, "csg/include"),
+            "-I" + os.path.join(d, "csg/include/votca/csg"),
+            "-I" + os.path.join(REPO, "csg/src/tools"),
+            "-I" + os.path.join(REPO, "csg/src/csg_boltzmann"),
+            "-I" + os.path.join(VERIF, "harness"),
+            "-isystem", "/usr/include/eigen3"]
+
+
+def _ninja(fl, subdir, lines, target, what):
+    hd = os.path.join(flavour_dir(fl), "harness", subdir)
     os.makedirs(hd, exist_ok=True)
-    sources = sources or [os.path.join(VERIF, "harness", name + ".cc")]
-    inc = ["-I" + os.path.join(REPO, "tools/include"),
-           "-I" + os.path.join(REPO, "csg/include"),
-           "-I" + os.path.join(d, "tools/include"),
-           "-I" + os.path.join(d, "tools/include/votca/tools"),
-           "-I" + os.path.join(d, "csg/include"),
-           "-I" + os.path.join(d, "csg/include/votca/csg"),
-           "-I" + os.path.join(REPO, "csg/src/tools"),
-           "-I" + os.path.join(REPO, "csg/src/csg_boltzmann"),
-           "-I" + os.path.join(VERIF, "harness"),
-           "-isystem", "/usr/include/eigen3"]
-    cxx = "g++ -std=c++17 -fopenmp %s -D%s %s" % (FLAVOURS[fl], GUARD, flags)
-    ldl = ("-L{t} -L{c} -Wl,-rpath,{t} -Wl,-rpath,{c} -lvotca_csg -lvotca_tools "
-           "-lboost_program_options -lboost_filesystem -lboost_system "
-           "-lexpat -lpthread -ldl").format(
-        t=os.path.join(d, "tools/src/libtools"),
-        c=os.path.join(d, "csg/src/libcsg"))
-    lines = ["cxx = " + cxx, "inc = " + " ".join(inc),
-             "rule cc",
-             "  command = $cxx $inc -MMD -MF $out.d -c $in -o $out",
-             "  depfile = $out.d", "  deps = gcc",
-             "rule ar", "  command = rm -f $out && ar crs $out $in",
-             "rule link",
-             "  command = g++ -fopenmp %s -rdynamic -o $out $in $libs %s %s"
-             % (LINK_FLAGS[fl], ldl, libs)]
-    objs = []
-    if xtp:
-        xcfg = _xtp_config_dir(hd)
-        xinc = ("-I{r}/xtp/include -I{x} -I{x}/votca/xtp "
-                "-I/usr/include/hdf5/serial").format(r=REPO, x=xcfg)
-        lines[1] += " " + xinc
-        xs = xtp_sources or XTP_SOURCES
-        xobjs = []
-        for s in xs:
-            o = "xtp_%s.o" % s
-            lines.append("build %s: cc %s/xtp/src/libxtp/%s.cc" % (o, REPO, s))
-            xobjs.append(o)
-        tag = hashlib.sha1(" ".join(xs).encode()).hexdigest()[:8]
-        lines.append("build libxtpmini_%s.a: ar %s" % (tag, " ".join(xobjs)))
-        objs_x = ["libxtpmini_%s.a" % tag]
-    else:
-        objs_x = []
-    for s in sources:
-        o = "h_%s_%s.o" % (name, os.path.basename(s).replace(".cc", ""))
-        lines.append("build %s: cc %s" % (o, s))
-        objs.append(o)
-    xl = ""
-    if xtp:
-        xl = ("-L/usr/lib/x86_64-linux-gnu/hdf5/serial -lhdf5_cpp -lhdf5")
-    lines.append("build %s: link %s %s" % (name, " ".join(objs),
-                                          " ".join(objs_x)))
-    lines.append("  libs = " + xl)
-    nf = os.path.join(hd, "build_%s.ninja" % name)
+    nf = os.path.join(hd, "build.ninja")
     txt = "\n".join(lines) + "\n"
-    with FileLock(os.path.join(BUILD_ROOT, fl + ".hlock")):
+    with FileLock(os.path.join(BUILD_ROOT, "%s.h_%s.lock" % (fl, subdir))):
         if not os.path.exists(nf) or open(nf).read() != txt:
             open(nf, "w").write(txt)
         t0 = time.time()
-        r = sh(["ninja", "-C", hd, "-f", nf, "-j", str(NPROC), name],
+        r = sh(["ninja", "-C", hd, "-j", str(NPROC), target],
                stdout=subprocess.PIPE, stderr=subprocess.STDOUT, text=True)
         if r.returncode != 0:
-            raise HarnessFailure("harness build failed (%s/%s):\n%s" %
-                                 (fl, name, r.stdout[-8000:]))
+            raise HarnessFailure("%s build failed (%s):\n%s" %
+                                 (what, fl, r.stdout[-8000:]))
         if time.time() - t0 > 5:
-            log("built harness %s/%s in %.0fs" % (fl, name, time.time() - t0))
-    return os.path.join(hd, name)
+            log("built %s (%s) in %.0fs" % (what, fl, time.time() - t0))
+    return os.path.join(hd, target)
+
+
+def xtp_includes(fl):
+    hd = os.path.join(flavour_dir(fl), "harness", "xtp")
+    os.makedirs(hd, exist_ok=True)
+    xcfg = _xtp_config_dir(hd)
+    return ("-I{r}/xtp/include -I{x} -I{x}/votca/xtp "
+            "-I/usr/include/hdf5/serial").format(r=REPO, x=xcfg)
+
+
+def build_xtp_lib(fl):
+    """the stand-alone subset of libxtp (no libint/libxc/ecpint needed),
+    compiled from /repo/xtp/src/libxtp with the flavour's flags."""
+    build_flavour(fl, ["votca_tools"])
+    cxx = "g++ -std=c++17 -fopenmp %s -D%s" % (FLAVOURS[fl], GUARD)
+    lines = ["cxx = " + cxx,
+             "inc = " + " ".join(_includes(fl)) + " " + xtp_includes(fl),
+             "rule cc",
+             "  command = $cxx $inc -MMD -MF $out.d -c $in -o $out",
+             "  depfile = $out.d", "  deps = gcc",
+             "rule ar", "  command = rm -f $out && ar crs $out $in"]
+    objs = []
+    for s in XTP_SOURCES:
+        lines.append("build %s.o: cc %s/xtp/src/libxtp/%s.cc" % (s, REPO, s))
+        objs.append(s + ".o")
+    lines.append("build libxtpmini.a: ar " + " ".join(objs))
+    return _ninja(fl, "xtp", lines, "libxtpmini.a", "xtp subset library")
+
+
+def build_harness(fl, name, sources=None, xtp=False, flags="", libs=""):
+    """compile /verif/harness/<name>.cc (plus optional extra sources) against
+    the freshly built libraries of flavour fl; returns the executable path."""
+    d = build_flavour(fl, ["votca_tools", "votca_csg"])
+    sources = sources or [os.path.join(VERIF, "harness", name + ".cc")]
+    cxx = "g++ -std=c++17 -fopenmp %s -D%s %s" % (FLAVOURS[fl], GUARD, flags)
+    ldl = ("-L{t} -L{c} -Wl,-rpath,{t} -Wl,-rpath,{c} -lvotca_csg "
+           "-lvotca_tools -lboost_program_options -lboost_filesystem "
+           "-lboost_system -lexpat -lpthread -ldl").format(
+        t=os.path.join(d, "tools/src/libtools"),
+        c=os.path.join(d, "csg/src/libcsg"))
+    inc = " ".join(_includes(fl))
+    xlib = ""
+    if xtp:
+        xa = build_xtp_lib(fl)
+        inc += " " + xtp_includes(fl)
+        xlib = (xa + " -L/usr/lib/x86_64-linux-gnu/hdf5/serial -lhdf5_cpp "
+                "-lhdf5")
+    lines = ["cxx = " + cxx, "inc = " + inc,
+             "rule cc",
+             "  command = $cxx $inc -MMD -MF $out.d -c $in -o $out",
+             "  depfile = $out.d", "  deps = gcc",
+             "rule link",
+             "  command = g++ -fopenmp %s -rdynamic -o $out $in %s %s %s"
+             % (LINK_FLAGS[fl], xlib, ldl, libs)]
+    objs = []
+    for s in sources:
+        o = os.path.basename(s).replace(".cc", "") + ".o"
+        lines.append("build %s: cc %s" % (o, s))
+        objs.append(o)
+    dep = (" | " + xa) if xtp else ""
+    lines.append("build %s: link %s%s" % (name, " ".join(objs), dep))
+    return _ninja(fl, name, lines, name, "harness " + name)
 
 
 # ----------------------------------------------------------------------------
@@ -336,7 +356,8 @@ class Check:
         self.extra = {}
         self.sanitizer = {}
         self.known = [k for k in load_known() if k["property"] == pid]
-        self.replay_dir = os.path.join(VERIF, "replay", pid)
+        self.replay_dir = os.path.join(
+            VERIF if REPO == "/repo" else BUILD_ROOT, "replay", pid)
 
     # -- counting ---------------------------------------------------------
     def add_summary(self, rec, prefix=""):
@@ -452,9 +473,11 @@ class Check:
               "violations": len(self.violations),
               "verdict": {0: "held on what was observed", 1: "violated",
                           2: "inconclusive"}[status]}
-        os.makedirs(os.path.join(VERIF, "evidence"), exist_ok=True)
-        json.dump(ev, open(os.path.join(VERIF, "evidence", self.pid + ".json"),
-                           "w"), indent=1, default=str)
+        evdir = os.path.join(VERIF, "evidence") if REPO == "/repo" else \
+            os.path.join(BUILD_ROOT, "evidence")
+        os.makedirs(evdir, exist_ok=True)
+        json.dump(ev, open(os.path.join(evdir, self.pid + ".json"), "w"),
+                  indent=1, default=str)
         for k, e in sorted(self.known_hit.items()):
             print("KNOWN-FINDING: property=%s %s [key=%s, %d hits]" %
                   (self.pid, e["what"], k, e["count"]))
